@@ -154,7 +154,7 @@ def make_spec(rng, i):
     mag = rng.choice(["small", "small", "float", "big"])
     spec = relgen.gen_spec(rng, kind, mag=mag, max_dom=3)
     # the order in which variables are given must not matter: shuffle it (tables are keyed by that order)
-    if kind in ("matrix", "func_pos", "func_kwargs", "func_partial", "neutral", "nary_expr") and len(spec["vars"]) > 1:
+    if kind in ("matrix", "func_pos", "func_kwargs", "func_partial", "neutral", "nary_expr") and len(spec["vars"]) > 1 and "params" not in spec:
         vs = list(spec["vars"])
         rng.shuffle(vs)
         if "table" in spec:
